@@ -96,7 +96,8 @@ sys.exit(0)
 
 def check_config(acc: work.Acc, op: str, shape: str, uc: str, vc: str, kx: str, ky: str,
                  n: int = 0) -> None:
-    """shape: QQ, QU (Quantity op Unit), QN (Quantity op number), NQ (number op Quantity)."""
+    """shape: QQ, QU (Quantity op Unit), UQ (Unit op Quantity), QN (Quantity op number),
+    NQ (number op Quantity)."""
     n_ = ns()
     U, V = eval(uc, n_), eval(vc, n_)
     import measured
@@ -116,6 +117,8 @@ def check_config(acc: work.Acc, op: str, shape: str, uc: str, vc: str, kx: str, 
             b = mk(ky, Y[ky])
         if shape == "NQ":
             a, b = b, a
+        if shape == "UQ":
+            a, b = U, Quantity(mk(ky, Y[ky]), V)
         if op == "add":
             return a + b
         if op == "sub":
@@ -150,7 +153,7 @@ def check_config(acc: work.Acc, op: str, shape: str, uc: str, vc: str, kx: str, 
 
     ex = run(fn)
     acc.explored(ex)
-    any_dec = "dec" in ((kx, ky) if shape != "QU" and op not in ("pow", "root", "neg", "pos", "abs", "in_unit") else (kx,))
+    any_dec = (ky == "dec") if shape == "UQ" else "dec" in ((kx, ky) if shape != "QU" and op not in ("pow", "root", "neg", "pos", "abs", "in_unit") else (kx,))
     for i, p in enumerate(ex.paths):
         key = (label, i)
         name = f"{label}#p{i}"
@@ -161,7 +164,7 @@ def check_config(acc: work.Acc, op: str, shape: str, uc: str, vc: str, kx: str, 
             if isinstance(p.exc, TypeError) and "decimal" in str(p.exc).lower() and "float" in str(p.exc):
                 acc.ob("unsat", name + ":python-rejects-float-decimal-mix", key)
                 continue
-        if op in ("add", "sub", "lt", "le", "gt", "ge", "in_unit") and shape == "QQ" and not same_dim:
+        if op in ("add", "sub", "lt", "le", "gt", "ge", "in_unit") and shape in ("QQ", "UQ") and not same_dim:
             # incommensurable: must raise TypeError or ConversionNotFound, never yield a value
             ok = p.exc is not None and type(p.exc).__name__ in ("TypeError", "ConversionNotFound")
             why = f"incommensurable {op} ended with {p.outcome if p.exc else outcome_kind(p.result)}"
@@ -173,7 +176,7 @@ def check_config(acc: work.Acc, op: str, shape: str, uc: str, vc: str, kx: str, 
             en = type(p.exc).__name__
             if en in UNDEFINED_OK:
                 # only where the operation is undefined: divisor zero / zero to a negative power
-                zero = {"div": (Y[ky] == 0) if shape in ("QQ", "QN") else (X[kx] == 0),
+                zero = {"div": (Y[ky] == 0) if shape in ("QQ", "QN", "UQ") else (X[kx] == 0),
                         "pow": X[kx] == 0, "root": X[kx] <= 0}.get(op)
                 if zero is None:
                     ok, why = False, f"{en} from {op}"
@@ -183,6 +186,8 @@ def check_config(acc: work.Acc, op: str, shape: str, uc: str, vc: str, kx: str, 
                     why = f"{en} from {op} where the operation is defined"
             elif en in ("TypeError",) and shape in ("QN", "NQ", "QU") and op in ("add", "sub", "lt", "le", "gt", "ge"):
                 ok = True  # a plain number / unit is not a quantity: rejecting is dimensional analysis
+            elif en == "TypeError" and shape == "UQ":
+                ok = True  # a bare unit on the left may be refused; what is returned must be right
             elif en == "FractionalDimensionError" and op == "root":
                 ok = True
             elif en == "ConversionNotFound" and op in ("add", "sub", "in_unit"):
@@ -199,12 +204,12 @@ def check_config(acc: work.Acc, op: str, shape: str, uc: str, vc: str, kx: str, 
                     ok, why = False, f"{op} returned a {outcome_kind(res)}"
                 else:
                     if op in ("add", "sub"):
-                        want_dim, want_unit = dU, (U if shape != "NQ" else None)
+                        want_dim, want_unit = dU, (U if shape not in ("NQ", "UQ") else None)
                     elif op == "mul":
-                        want_dim = tuple(a + b for a, b in zip(dU, dV)) if shape in ("QQ", "QU") else dU
+                        want_dim = tuple(a + b for a, b in zip(dU, dV)) if shape in ("QQ", "QU", "UQ") else dU
                         want_unit = None
                     elif op == "div":
-                        if shape in ("QQ", "QU"):
+                        if shape in ("QQ", "QU", "UQ"):
                             want_dim = tuple(a - b for a, b in zip(dU, dV))
                         elif shape == "NQ":
                             want_dim = tuple(-b for b in dU)      # number / quantity
@@ -256,8 +261,10 @@ def generic_replay(op: str, shape: str, uc: str, vc: str, kx: str, ky: str, n: i
 
     xv = lit(kx, m.get(str(X[kx]), 3)) if m else {"int": "3", "float": "3.5", "dec": "Decimal('3.5')"}[kx]
     yv = lit(ky, m.get(str(Y[ky]), 2)) if m else {"int": "2", "float": "2.5", "dec": "Decimal('2.5')"}[ky]
-    b = {"QQ": "y * V", "QU": "V", "QN": "y", "NQ": "y"}[shape]
+    b = {"QQ": "y * V", "QU": "V", "QN": "y", "NQ": "y", "UQ": "y * V"}[shape]
     a, bb = ("x * U", b) if shape != "NQ" else (b, "x * U")
+    if shape == "UQ":
+        a = "U"
     expr = {"add": "a + b", "sub": "a - b", "mul": "a * b", "div": "a / b", "eq": "a == b",
             "lt": "a < b", "le": "a <= b", "gt": "a > b", "ge": "a >= b", "in_unit": "a.in_unit(V)",
             "pow": f"a ** {n}", "root": f"a.root({n})", "neg": "-a", "pos": "+a", "abs": "abs(a)"}[op]
@@ -285,7 +292,7 @@ except Exception as e:
     o = ('exc', type(e).__name__, str(e))
 print(a, b, '->', o)
 op, shape = {op!r}, {shape!r}
-if shape == 'QQ' and not same_dim and op in ('add', 'sub', 'lt', 'le', 'gt', 'ge', 'in_unit'):
+if shape in ('QQ', 'UQ') and not same_dim and op in ('add', 'sub', 'lt', 'le', 'gt', 'ge', 'in_unit'):
     if o[0] == 'ok' or o[1] not in ('TypeError', 'ConversionNotFound'):
         print('REPRODUCED: incommensurable operation did not raise TypeError/ConversionNotFound'); sys.exit(1)
     sys.exit(0)
@@ -293,21 +300,25 @@ if shape == 'QQ' and not same_dim and op == 'eq':
     if o != ('ok', False):
         print('REPRODUCED: == across dimensions is not False'); sys.exit(1)
     sys.exit(0)
+if o[0] == 'exc' and shape == 'UQ' and o[1] == 'TypeError':
+    sys.exit(0)
 if o[0] == 'exc':
     print('REPRODUCED: unexpected exception', o); sys.exit(1)
 r = o[1]
 if isinstance(r, Quantity):
     dU, dV = U.dimension.exponents, V.dimension.exponents
-    want = dict(add=dU, sub=dU, mul=tuple(p + q for p, q in zip(dU, dV)) if shape in ('QQ', 'QU') else dU,
-                div=tuple(p - q for p, q in zip(dU, dV)) if shape in ('QQ', 'QU') else dU,
+    want = dict(add=dU, sub=dU, mul=tuple(p + q for p, q in zip(dU, dV)) if shape in ('QQ', 'QU', 'UQ') else dU,
+                div=tuple(p - q for p, q in zip(dU, dV)) if shape in ('QQ', 'QU', 'UQ') else dU,
                 pow=tuple(p * {n} for p in dU),
                 root=(tuple(p // ({n} or 1) for p in dU) if not any(p % ({n} or 1) for p in dU) else 'refused') if {n} else tuple(0 for _ in dU),
                 in_unit=dV, neg=dU, pos=dU, abs=dU)[op]
     if shape == 'NQ' and op == 'div':
         want = tuple(-p for p in dU)
     dec = isinstance(x, Decimal) or (isinstance(y, Decimal) and shape in ('QQ', 'QN', 'NQ') and op in ('add', 'sub', 'mul', 'div'))
+    if shape == 'UQ':
+        dec = isinstance(y, Decimal)
     if tuple(r.unit.dimension.exponents) != tuple(want) or (dec and not isinstance(r.magnitude, Decimal)) \\
-            or (op in ('add', 'sub') and shape != 'NQ' and r.unit is not U):
+            or (op in ('add', 'sub') and shape not in ('NQ', 'UQ') and r.unit is not U):
         print('REPRODUCED: wrong dimension / unit / numeric type', r.unit.dimension.exponents, want, type(r.magnitude)); sys.exit(1)
 elif op not in ('eq', 'lt', 'le', 'gt', 'ge'):
     print('REPRODUCED: result is not a Quantity:', type(r)); sys.exit(1)
@@ -344,7 +355,7 @@ def tasks_for(tier: str) -> List[List[Tuple]]:
             for (kx, ky) in (kinds_all if tier == "thorough" else kinds_quick):
                 cfgs.append((op, "QQ", uc, vc, kx, ky))
         for op in ("mul", "div", "add", "sub", "lt"):
-            for shape in ("QU", "QN", "NQ"):
+            for shape in ("QU", "UQ", "QN", "NQ"):
                 for (kx, ky) in kinds_quick:
                     cfgs.append((op, shape, uc, vc, kx, ky))
     for uc in units:
